@@ -183,7 +183,7 @@ def run(item, ctx, tier, seed):
                       # the curve's arrays are the caller's: overwriting them must not reach the Scores object
                       for a_ in (r.thresholds, r.fnr, r.fpr):
                           if isinstance(a_, np.ndarray) and a_.flags.writeable and a_.size:
-                              a_[...] = -123.0
+                              a_[...] = 111
                       if not (np.array_equal(np.asarray(s.pos), pos_keep) and np.array_equal(np.asarray(s.neg), neg_keep)):
                           ctx.fail("returned-curve-does-not-alias-the-scores", case, observed=[s.pos, s.neg], expected=[pos_keep, neg_keep])
                           s.pos, s.neg = pos_keep.copy(), neg_keep.copy()
